@@ -194,6 +194,10 @@ def run(run, model):
     run.do(c19.validators, model, "C14.no-spurious-rejection", "C14.no-spurious-rejection")
     run.do(gates.c02_result_identity, model, "C14.result-identity", "C14.forward")
     run.do(gates.object_init_args, model)
+    # giving the marker back must not fail on the way out (``reset(token)`` raises in a context other than the one that
+    # made the token): the caller would get that error instead of the body's result or exception
+    from . import marker
+    run.do(marker.report_rule, model, "C11.release-on-all-exits", marker.MARKER_REGIONS_ALL, "no exit is reached with the marker held", as_rule="C14.marker-given-back")
     run.do(gates.c02_exc_transparent, model, "C14.exc-transparent")
     run.do(c05.order_identity, model, "C14.forward-order", "C14.forward")
     run.do(metadata, model)
